@@ -106,8 +106,8 @@ def _serve_weight(h):
         return 1.5
     honoured = "_absent" in n or ("_same" in n and ("_estrong_" in n or "_ecomma_" in n))
     if (n.startswith("serve_single_") and honoured) or (n.startswith("serve_multi_") and honoured):
-        return 6
-    return 2.5
+        return 5
+    return 2
 
 
 def unit_serve(select, panic_tags=("C13",), precond=False, mp=None, prep=False, qkey=None, qcap=1, quick=None):
@@ -225,7 +225,7 @@ def _simple_unit(name, inject, harnesses, decode_fn=None, gen_fn=None, load_meta
         "panic_tags": list(panic_tags),
         "extra": extra if extra is not None else KANI_LIGHT,
         "timeout": timeout or {"quick": 1500, "thorough": 3600},
-        "weight": 1.5,
+        "weight": 1,
     }
 
 
@@ -258,7 +258,7 @@ def unit_lib():
 
 def unit_gzip(names, panic_tags=("C13",)):
     u = _unit_gzip(names, panic_tags)
-    u["weight"] = 3  # sb_dead_after_abort_gz peaks near 10 GB
+    u["weight"] = 2.5  # sb_dead_after_abort_gz peaks near 10 GB
     return u
 
 
@@ -277,7 +277,7 @@ def unit_chunker(select, panic_tags=("C13",)):
         return ["chunker::verif_h::gen::" + n for n, m in sorted(meta.items()) if select(m)]
     u = _simple_unit("chunker", {"chunker.rs": "chunker_h.rs"}, hs, decode_fn=decode.decode_chunker, gen_fn=_chunker_gen,
                      load_meta=lambda hdir: json.load(open(os.path.join(hdir, "chunker_meta.json"))), panic_tags=panic_tags)
-    u["weight"] = 1
+    u["weight"] = 0.8
     return u
 
 
